@@ -683,3 +683,50 @@ def rollback_commits_after_truncate(facts, rep):
         bad = sorted(set(body.return_blocks()) & reach)
         rep.check(not bad, "K1", short, "truncate-then-own-commit", "Nomt::rollback can return Ok after Rollback::truncate at %s without running its own commit (return at bb%s): the deltas are popped in memory and the truncation of the on-disk log stays pending - the next ordinary commit's sync consumes it and cuts its own delta out of the log" % (body.term(tb).get("ln"), bad), site=body.term(tb).get("ln"), detail="every success path from truncate at %s passes FinishedSession::commit (bb%s)" % (body.term(tb).get("ln"), cm))
     return n
+
+
+VARIANT_PRESERVING = ("map", "take", "as_mut", "as_ref", "inspect", "cloned", "copied", "as_deref", "as_deref_mut", "replace", "unwrap", "expect", "into", "from", "clone")
+VARIANT_DROPPING = ("filter", "and_then", "xor", "take_if", "zip", "and", "filter_map", "then", "then_some", "ok", "or", "or_else")
+
+
+def one_delta_per_commit(facts, rep):
+    """C09 K2: `rollback(n)` counts COMMITS, so every commit of a session that records rollback deltas appends exactly one delta -
+    also a commit that wrote nothing.  Rule: in Session::finish the `rollback_delta` handed to the FinishedSession is Some
+    whenever the session has a delta builder: it is computed from `self.rollback_delta` through variant-preserving Option
+    plumbing only (take / map / as_mut ..); a `filter`, `and_then`, `take_if` .. or an explicit `None` on some path drops the
+    delta of a commit and shifts what every later rollback(n) undoes."""
+    body = facts.bodies.get("nomt::Session::finish") or facts.bodies.get("nomt::Session::<T>::finish")
+    if body is None:
+        raise CheckBroken("anchor missing: nomt::Session::finish")
+    short = "Session::finish"
+    n = 0
+    for b in range(body.n):
+        if body.is_cleanup(b):
+            continue
+        for s_ in body.stmts(b):
+            if not (s_["k"] == "assign" and s_["rv"]["k"] == "agg" and str(s_["rv"].get("name", "")).endswith("FinishedSession") and "rollback_delta" in (s_["rv"].get("fields") or [])):
+                continue
+            op = s_["rv"]["ops"][s_["rv"]["fields"].index("rollback_delta")]
+            n += 1
+            bad, reached = [], False
+            work, seen = [op], 0
+            while work and seen < 20:
+                cur = work.pop()
+                seen += 1
+                for r in trace(body, cur):
+                    if r.kind == "param" and "rollback_delta" in r.fields:
+                        reached = True
+                    elif r.kind in ("call", "via") and r.obj is not None and r.obj.get("args") and "option::Option" in str(r.what):
+                        m = str(r.what).rsplit("::", 1)[-1]
+                        if m in VARIANT_DROPPING:
+                            bad.append("`%s` at %s" % (m, r.obj.get("ln")))
+                        work.append(r.obj["args"][0])
+                    elif r.kind == "agg" and str(r.what).endswith("Option::None") and not r.fields:
+                        bad.append("an explicit None at bb%d" % r.bb)
+                    elif r.kind == "call" and r.obj is not None and r.obj.get("args"):
+                        work.append(r.obj["args"][0])
+            if not reached:
+                rep.notes.append("K2: the rollback_delta of the FinishedSession built at %s is not computed from self.rollback_delta by Option plumbing: not decided" % s_.get("ln"))
+                continue
+            rep.check(not bad, "K2", short, "one-delta-per-commit", "Session::finish can drop the reverse delta of a session that records deltas (%s): that commit appends nothing to the rollback log, so every later rollback(n) undoes an earlier commit than the one asked for" % ", ".join(bad[:3]), site=s_.get("ln"), detail="FinishedSession.rollback_delta = self.rollback_delta.take().map(finalize): Some whenever the session has a builder")
+    return n
